@@ -222,6 +222,11 @@ func solveQuery(q *Query, dir string, timeoutS int, allSolvers bool) *Result {
 		if x.st == "timeout" && res.Status == "unknown" {
 			res.Status = "timeout"
 		}
+		if x.st == "error" && x.name != "cvc5" {
+			// an ill-formed query (a translation bug) must not hide behind "unknown"
+			// (cvc5 rejects some z3-only constructs; its errors alone are not conclusive)
+			res.Status = "error"
+		}
 	}
 	if res.Status != "sat" && res.Status != "unsat" && q.Focused != "" && timeoutS > 2 {
 		if fr := solveFocused(ctx, q, dir, timeoutS, false); fr != nil {
